@@ -177,6 +177,8 @@ def discharge(vcs, timeout_ms=20000, extra_assumption=None, use_cvc5=True, stop_
             r = solve.check_valid(vc.pc, vc.goal, timeout_ms, use_cvc5=use_cvc5)
             rec["seconds"] += r["seconds"]
             solvers.add(r["solver"])
+            if "cross" in r:
+                rec.setdefault("cross", {"unsat": 0, "unknown": 0, "sat": 0})[r["cross"]] += 1
             if r["result"] != "unsat":
                 rec["result"] = r["result"]
                 rec["model"] = r["model"]
